@@ -47,6 +47,8 @@ def to_view(v):
         return tuple(to_view(x) for x in v)
     if isinstance(v, list):
         return [to_view(x) for x in v]
+    if isinstance(v, dict):
+        return {k: to_view(x) for k, x in v.items()}
     if type(v).__module__.startswith("strax") and not isinstance(v, type):
         return CObj(v)
     return v
